@@ -573,8 +573,11 @@ def judge_c06(H):
 
 def _justified(cid, t_lo, t_hi, faults, harness, env_times, md_times, H, P):
     eps = 1e-6
-    # a fault fate on any request of this client inside the window (including the JoinGroup itself)
-    if any(t_lo - eps <= f["t"] <= t_hi + eps for f in faults.get(cid, [])):
+    # a fault fate on any request of this client whose EFFECT can land inside the window (including the JoinGroup itself):
+    # the fate is stamped when the request reaches the broker; the client learns of it later - an error reply one
+    # network latency (or an injected delay) later, a lost reply only when its request timeout expires
+    reach = P["request_timeout_ms"] / 1000.0 + 0.1
+    if any(t_lo - reach - eps <= f["t"] <= t_hi + eps for f in faults.get(cid, [])):
         return "fault"
     if any(t_lo - eps <= t <= t_hi + eps for t in harness.get(cid, [])):
         return "harness call"
